@@ -147,6 +147,11 @@ def make_operand(rng, cur):
             val, err = np.float64(val), np.float64(err)
         how = rng.choice(['same', 'same', 'nobins'])
         bns = cur.bins if how == 'same' else None
+        if not cur.bins and shp and rng.random() < 0.5:
+            # the left operand has no bins, the right one has: the result
+            # keeps the (absent) bins of the left operand
+            how = 'ownbins'
+            bns = gen.bins(rng, shp, rng.choice(['edges', 'centres']))
         if bns is not None:
             from collections import OrderedDict
             bns = OrderedDict((k, np.array(v, copy=True))
